@@ -282,6 +282,53 @@ def match_known(known, sig):
 
 
 # --------------------------------------------------------------------------
+# order-dependent violations: replay of a sequence of cases in a fresh interpreter
+
+
+def isolated_replay(modname, cases, timeout=300):
+    """Run mod.replay() on each case, in order, in a fresh interpreter; returns the verdict for the last one
+    (False = violation reproduced, True = holds, None = unsupported / error)."""
+    import subprocess
+
+    code = (
+        "import sys, json\n"
+        "sys.path.insert(0, %r)\n"
+        "from mc import core\n"
+        "core.bind_repo()\n"
+        "mod = __import__(%r, fromlist=['x'])\n"
+        "cases = json.load(sys.stdin)\n"
+        "ok = None\n"
+        "for c in cases:\n"
+        "    ok, _ = mod.replay(core.unjson(c))\n"
+        "print('VERDICT', ok)\n"
+    ) % (VERIF, modname)
+    env = dict(os.environ, VERIF_REPO=os.path.abspath(REPO), PYTHONHASHSEED=os.environ.get("PYTHONHASHSEED", "0"))
+    try:
+        pr = subprocess.run([sys.executable, "-B", "-c", code], input=json.dumps(jsonable(cases)), capture_output=True, text=True, env=env, timeout=timeout)
+    except Exception:
+        return None
+    for line in pr.stdout.splitlines()[::-1]:
+        if line.startswith("VERDICT"):
+            return {"False": False, "True": True}.get(line.split()[1])
+    return None
+
+
+def find_prelude(modname, case, history, max_tries=48):
+    """For a violation seen in a long-lived worker: the shortest prefix of earlier cases (0 or 1 of the last
+    `max_tries`) after which the case fails in a fresh interpreter.  Returns a list (possibly empty) or None."""
+    if isolated_replay(modname, [case]) is False:
+        return []
+    seen = []
+    for h in reversed(list(history)[-max_tries:]):
+        if h in seen:
+            continue
+        seen.append(h)
+        if isolated_replay(modname, [h, case]) is False:
+            return [h]
+    return None
+
+
+# --------------------------------------------------------------------------
 # evidence, replay files, exit code
 
 
@@ -318,7 +365,11 @@ def finish(mod, tier, seed, st, t0):
         oks = []
         for _ in range(2):
             try:
-                ok, _txt = mod.replay(v["case"])
+                if isinstance(v["case"], dict) and v["case"].get("prelude") is not None:
+                    # an order-dependent case: its prelude and itself, in a fresh interpreter
+                    ok = isolated_replay(mod.__name__, list(v["case"]["prelude"]) + [{k: x for k, x in v["case"].items() if k != "prelude"}])
+                else:
+                    ok, _txt = mod.replay(v["case"])
             except Exception:
                 ok = "error:" + traceback.format_exc()[-500:]
             oks.append(ok)
